@@ -8,6 +8,9 @@ import shlex
 from . import kernel
 
 ACTIVE = ("PENDING", "CONFIGURING", "RUNNING", "SUSPENDED")
+# other names squeue prints for a job that has not finished (man squeue, JOB STATE CODES)
+EXOTIC = {"PENDING": ("REQUEUE_HOLD", "REQUEUE_FED", "REQUEUED", "RESV_DEL_HOLD", "SPECIAL_EXIT"),
+          "RUNNING": ("SIGNALING", "STAGE_OUT", "RESIZING", "STOPPED")}
 FINISHED_OK = ("COMPLETING", "COMPLETED")
 TERMINAL = ("COMPLETED", "FAILED", "TIMEOUT", "NODE_FAIL", "PREEMPTED", "OUT_OF_MEMORY", "CANCELLED",
             "BOOT_FAIL", "DEADLINE")
@@ -431,15 +434,24 @@ class SimSlurm:
                 rows.append(j)
         pad = w.squeue_pad
         lines = []
+        shown = {}
+        px = float(self.k.get("p_exotic_state", 0.0))
         for j in rows:
-            vals = {"jobid": j.id, "state": j.state, "name": j.name}
+            disp = j.state
+            if px > 0 and not j.foreign and j.state in EXOTIC and w.ch.flip(px, "exotic_state"):
+                # the rest of SLURM's vocabulary for a job that is still held or running: held after a
+                # requeue, waiting for a deleted reservation, being signalled, staging out ...
+                disp = w.ch.pick(list(EXOTIC[j.state]), "exotic_state_name")
+                w.probe("exotic_state_listed")
+            shown[j.id] = disp
+            vals = {"jobid": j.id, "state": disp, "name": j.name}
             cells = [str(vals.get(f, "")) for f in fmt]
             # squeue --Format pads every field to a fixed width (default 20) and never
             # lets two fields touch
             lines.append("".join(c.ljust(max(pad, len(c) + 1)) for c in cells))
         out = "\n".join(lines) + ("\n" if lines else "")
         w.cmd_series_end(vp)
-        w.emit("squeue", vp, ok=True, jid=jid, rows=[(j.id, j.state) for j in rows if not j.foreign], attempt=attempt)
+        w.emit("squeue", vp, ok=True, jid=jid, rows=[(j.id, shown[j.id]) for j in rows if not j.foreign], attempt=attempt)
         return 0, out, ""
 
     def scancel(self, vp, argv):
